@@ -151,7 +151,34 @@ def run(fb, rep, tier):
                         rep.check(at == v, 'R05.3', k3, w3, 'column index %s' % v, 'the column arm looks the exponent up at %s instead of the column index %s' % (at, v))
 
     # ------------------------------------------------------------------ R05.4
-    rep.rule('R05.4', 'the scaler object is dereferenced only under a test of the _scaler pointer itself', floor=10)
+    rep.rule('R05.4', 'the scaler object is dereferenced only under a test of the _scaler pointer itself, or of the scaled state of the LP where the selection of the scaler cannot change while the LP is scaled', floor=10)
+    # invariant "the LP in the solver is scaled => _scaler is the (non-null) scaler that scaled it": it holds if every function outside the
+    # constructors that assigns _scaler first hands a scaled LP back unscaled (an if on _solver.isScaled() whose branch calls
+    # unscaleLPandReloadBasis() / unscaleLP(), on every path to the assignment).  F28: it did not, setIntParam(SCALER, ..) just re-targeted.
+    inv_ok, inv_sites = True, 0
+    for g in fb.methods_of(C):
+        if not g.nodes or g.mk in ('ctor', 'copyctor') or g.short == 'SoPlexBase':
+            continue
+        asg = [n for n in g.nodes if n.k == 'BinaryOperator' and n.o == '=' and render(strip(n.kids[0])).replace('this->', '') == '_scaler']
+        if not asg:
+            continue
+        inv_sites += len(asg)
+        uns = [a for a in g.nodes if a.k == 'IfStmt' and a.kid('cond') is not None and a.kid('then') is not None and re.search(r'_solver\.isScaled\(\)', render(a.kid('cond')))
+               and any(x.k == 'CXXMemberCallExpr' and x.short in ('unscaleLPandReloadBasis', 'unscaleLP') for x in a.kid('then').walk())]
+        from engine import case_arm_nodes
+        arms = [set(x.i for x in case_arm_nodes(g, cs)) for cs in g.nodes if cs.k == 'CaseStmt']
+        for n in asg:
+            anc = list(g.ancestors(n))
+            # (1) the arm of the parameter switch first hands a scaled LP back unscaled
+            ok_ = any(u.l < n.l and any(u.i in a_ and n.i in a_ for a_ in arms) for u in uns)
+            # (2) the pointer is re-derived from the stored parameter: the same selection as before
+            ok_ = ok_ or any(a.k == 'SwitchStmt' and a.kid('cond') is not None and re.search(r'intParam\((SoPlexBase<\w+>::)?SCALER\)', render(a.kid('cond'))) for a in anc)
+            # (3) dropped only when the LP is not scaled
+            ok_ = ok_ or any(a.k == 'IfStmt' and a.kid('cond') is not None and re.search(r'!\(?(this->)?_isRealLPScaled|!\(?_solver\.isScaled\(\)', render(a.kid('cond')))
+                             and any(x.i == n.i for x in a.kid('then').walk()) for a in anc)
+            inv_ok = inv_ok and ok_
+    if inv_sites == 0:
+        raise AnalysisBroken('R05.4: no assignment to _scaler found outside the constructors')
     for f in sorted(fb.methods_of(C), key=lambda f: (f.file, f.line)):
         ds = [n for n in f.nodes if n.k == 'CXXMemberCallExpr' and n.obj() is not None and render(n.obj()) == '_scaler' and not f.in_assert(n)]
         if not ds:
@@ -166,6 +193,17 @@ def run(fb, rep, tier):
                         ok = True
                 if a.k == 'ConditionalOperator' and re.search(r'_scaler', render(a.kid('cond'))):
                     ok = True
+                if inv_ok and a.k == 'IfStmt' and any(x.i == n.i for x in a.kid('then').walk()):
+                    ct = render(a.kid('cond'))
+                    # a bool local that stands for the scaled state (`const bool adaptScaling = unscale && _solver.isScaled();`)
+                    m_ = re.fullmatch(r'\(?(\w+)\)?', ct)
+                    if m_:
+                        for v_ in f.nodes:
+                            if v_.k == 'VarDecl' and str(v_.n).split('::')[-1] == m_.group(1) and v_.t in ('bool', 'const bool') and v_.c:
+                                ct = render(v_.kids[0])
+                    # _realLP->isScaled(): these queries return early unless the real LP is the one loaded in the solver (_realLP == &_solver)
+                    if re.search(r'(_solver\.|_realLP->)isScaled\(\)', ct) and not re.search(r'!\(?(_solver\.|_realLP->)isScaled', ct) and '||' not in ct:
+                        ok = True
             # a function that is only entered with a scaler (its callers test the pointer) is accepted via the call sites
             if not ok:
                 unguarded.append(n)
